@@ -25,7 +25,8 @@ META = {
                   'read_/write_<struct> both, one of them or none, own read_/write_<m> for any members; any oracle outcome of the driver '
                   'bodies incl. SECoP errors and arbitrary exceptions at any member position of a struct access) + '
                   'struct_update_recovers_members (error states: from any state, an operation that returned and announced a value of the '
-                  'struct leaves no member in error state, whether or not the member value changed), floatenum_consistent '
+                  'struct leaves no member in error state, whether or not the member value changed; …_overlapped: the same for accesses '
+                  'overlapping with assignments of other threads), floatenum_consistent '
                   '(value = valuedict[index] after every operation; a write hands the driver an index whose value no other label is closer '
                   'to; a driver-side assignment to the float leaves such an index, however close the assigned value is to the current one) '
                   '+ closest_first_minimum (tie rule of min()) + labels_wellformed / floatenum_consistent_of_labels (the hypotheses about '
@@ -65,7 +66,8 @@ META = {
         'is recorded by the scripted check methods',
         'error states of struct members: "a value of the struct was announced during the operation" is read off the update messages '
         'the connection received; "in error state" = readerror set or never announced (the flag the omission of updates consults); for '
-        'overlapping operations the clause is applied to the sequential prefix / tail operations only and is not proved',
+        'overlapping operations the theorem covers every overlapped access (struct_update_recovers_members_overlapped), the monitor '
+        'applies the clause to the sequential prefix / tail operations of a run only (the record that joins the threads is not one operation)',
         'the two extremes of omit_unchanged_within (0 and 10^6 s) stand for every timing under the default window',
         'overlapping operations: vlib.sched switches threads only at lock / send primitives (and, for a tree whose guard counter is a '
         'plain integer, between its load and its store); what runs under updateLock is atomic for every other thread taking that lock; '
